@@ -3,7 +3,7 @@ FRAGMENT = {
  'C15': {'bin': 'w_c15',
  'world': 'c15',
  'level': 'exploration',
- 'quick': {'runs': 30000, 'budget_s': 30, 'workers': 16},
+ 'quick': {'runs': 300000, 'budget_s': 30, 'workers': 16},
  'thorough': {'runs': 3000000, 'budget_s': 600, 'workers': 16, 'det_sample': 200},
  'level_text': 'seeded exploration of packet interleavings (selected IDL/PFC sources, foreign addresses/streams, ordinary pages) x block sizes and alignments '
                'x dropped/corrupted packets against payload-level reference lists; encoders written from EN 300 708; real demultiplexers under ASan+UBSan fed '
